@@ -540,7 +540,7 @@ VTESS_INVS = ["Deterministic", "PrefixSums", "InvListedByLeft", "InvListedByRigh
               "SymIsNonSymMinusTreated", "SymEqualsStored"]
 
 
-def run_mcvtess(name, N, T, K, mode, hasmask=True, walls_fixed=True, collect="indexed", timeout=1800):
+def run_mcvtess(name, N, T, K, mode, hasmask=True, walls_fixed=True, collect="indexed", timeout=6000):
     cfg = os.path.join(OUT, "tlc", "vtess_%s.cfg" % name)
     write_cfg(cfg, constants=dict(N=N, T=T, K=K, InputMode=mode, CollectMode=collect, HasMask=hasmask, WallsFixed=walls_fixed),
               invariants=VTESS_INVS, properties=["SharedImmutable", "SlotOwnership"])
